@@ -667,7 +667,7 @@ pub fn gen_custom(rng: &mut Rng, fl: Flavour, kind: u8) -> RV {
         }
         (Flavour::Manifest, 0x83) => vec![rng.below(2) as u8],
         (Flavour::Manifest, 0x84) => rng.bytes(32),
-        _ => unreachable!("no custom kind {kind:#x} in {fl:?}"),
+        _ => vec![], // not a custom kind of this flavour: an (invalid) empty body, never a harness panic
     };
     RV::Custom(kind, body)
 }
